@@ -16,22 +16,30 @@ def sh(cmd, cwd):
     return r.returncode, (r.stdout + r.stderr)
 meta = json.load(open(f"{src}/meta.json"))
 feat = "--features mahf_verif" if "mahf_verif" in json.dumps(meta) and "features" in meta.get("demo_command","") else ""
-sh("git checkout -- . && rm -f tests/demo.rs", wt)
-rc, out = sh(f"git apply {src}/patch.diff", wt)
-if rc: print("patch does not apply:", out); sys.exit(1)
-os.makedirs(f"{wt}/tests", exist_ok=True)
-rc_suite, out_suite = sh("cargo test --offline 2>&1 | grep -E 'test result|FAILED|^error' ", wt)
-suite_ok = "FAILED" not in out_suite and "error" not in out_suite and out_suite.count("test result: ok") >= 2
-shutil.copy(f"{src}/demo.rs", f"{wt}/tests/demo.rs")
-rc_demo_mut, out1 = sh(f"cargo test --offline {feat} --test demo 2>&1 | tail -5", wt)
-demo_fails = "test result: FAILED" in out1 or "panicked" in out1 or "error: test failed" in out1
-sh("git checkout -- src", wt)
-rc_demo_clean, out2 = sh(f"cargo test --offline {feat} --test demo 2>&1 | tail -5", wt)
-demo_passes = "test result: ok" in out2 and "FAILED" not in out2
-sh("rm -f tests/demo.rs; git checkout -- .", wt)
+# SEEDED_CONFIRM_ONLY=1: stop after step 1 (worktree only, so several can run in parallel) and leave confirm.json beside the
+# mutant; SEEDED_SKIP_CONFIRM=1: take step 1 from that file and do steps 2-3 (serial, they use /repo)
+out_suite = out1 = out2 = ""
+if os.environ.get("SEEDED_SKIP_CONFIRM"):
+    c = json.load(open(f"{src}/confirm.json")); suite_ok, demo_fails, demo_passes = c["suite_ok"], c["demo_fails"], c["demo_passes"]
+else:
+    sh("git checkout -- . && rm -f tests/demo.rs", wt)
+    rc, out = sh(f"git apply {src}/patch.diff", wt)
+    if rc: print("patch does not apply:", out); sys.exit(1)
+    os.makedirs(f"{wt}/tests", exist_ok=True)
+    rc_suite, out_suite = sh("cargo test --offline 2>&1 | grep -E 'test result|FAILED|^error' ", wt)
+    suite_ok = "FAILED" not in out_suite and "error" not in out_suite and out_suite.count("test result: ok") >= 2
+    shutil.copy(f"{src}/demo.rs", f"{wt}/tests/demo.rs")
+    rc_demo_mut, out1 = sh(f"cargo test --offline {feat} --test demo 2>&1 | tail -5", wt)
+    demo_fails = "test result: FAILED" in out1 or "panicked" in out1 or "error: test failed" in out1
+    sh("git checkout -- src", wt)
+    rc_demo_clean, out2 = sh(f"cargo test --offline {feat} --test demo 2>&1 | tail -5", wt)
+    demo_passes = "test result: ok" in out2 and "FAILED" not in out2
+    sh("rm -f tests/demo.rs; git checkout -- .", wt)
+    json.dump({"suite_ok": suite_ok, "demo_fails": demo_fails, "demo_passes": demo_passes}, open(f"{src}/confirm.json", "w"))
 print(f"{pid}-{k}: suite_passes_with_mutant={suite_ok} demo_fails_with_mutant={demo_fails} demo_passes_without={demo_passes}")
 if not (suite_ok and demo_fails and demo_passes):
     print(out_suite[-600:], out1[-600:], out2[-600:]); sys.exit(1)
+if os.environ.get("SEEDED_CONFIRM_ONLY"): sys.exit(0)
 # run my checks
 st = subprocess.run(['git','-C','/repo','status','--porcelain','--untracked-files=no'],capture_output=True,text=True).stdout.strip()
 if st: print("refusing: /repo dirty"); sys.exit(3)
